@@ -69,4 +69,14 @@ var plans = map[string]plan{
 			"normal form: REQUIRED fields present, no field at a value the specification's serialisation treats as absent, no siblings next to $ref; numbers are small integers and dyadic fractions",
 		},
 	},
+	"C04": {
+		Quick:    []stage{enumStage(), rapidStage(1_200)},
+		Thorough: []stage{enumStage(), rapidStage(60_000)},
+		Rule:     "cases are (conforming base document, one rule applied at one node found by a kind-aware walk of the raw document, variant, option bit set). enum stage: the hand-written base document that uses every container kind x every rule x every applicable node x variants x 8 option sets (all 64 in the thorough tier), complete; rapid stage: docgen conforming documents (with and without defaults/examples/extensions) x random rule/node/options, 1 in 8 unmutated. Expected verdict: conforming => accepted under every option set; mutated => rejected unless the rule is the one an option in the set names. non-trivial = the mutated node sits >= 4 pointer tokens deep or the option set is non-empty. distinct = FNV-64a of the canonical case JSON.",
+		Assume: []string{
+			"the rule list and the option->rule table are read off the statement, the option doc comments and the OpenAPI 3.0.3 text",
+			"nodes below operation callbacks and encoding objects are generated but not demanded (not in the statement's list of places)",
+			"for mutations that replace a whole schema, the accept direction is asserted only on base documents without defaults/examples (an ancestor's example could otherwise fail for an unrelated reason)",
+		},
+	},
 }
